@@ -55,6 +55,10 @@ Proof. intros c. all_configs c; vm_compute; repeat split; reflexivity. Qed.
 Theorem C10_default_and_builder : defaults_ok impl_bodies = true.
 Proof. vm_compute. reflexivity. Qed.
 
+(* (5b) the source distinguishes no build configuration that the 256 modelled ones do not *)
+Theorem C10_configuration_space : cfg_space_ok all_files = true.
+Proof. vm_compute. reflexivity. Qed.
+
 (* (6) whatever is selected computes the portable result (every configuration, every way of obtaining it) *)
 Theorem C10_results_equal_portable :
   forall (e : env) (b : backend) (force : bool) (k : lanes) (fs : list (list N)) (w : width) (h0 : hasher),
@@ -66,4 +70,5 @@ Print Assumptions C10_selection_permitted.
 Print Assumptions C10_source_ladders.
 Print Assumptions C10_dispatch_tables.
 Print Assumptions C10_safe_constructors.
+Print Assumptions C10_configuration_space.
 Print Assumptions C10_results_equal_portable.
